@@ -139,7 +139,9 @@ RingInv ==
            ra[i] = occ[a][(ClassOf(cfg, a, BaseOf(ra)) + i - 1) % NOf(cfg, a)]
 
 WinLo == T0 - MaxRet(cfg) - 2
-Windows == {<<f, u>> \in (WinLo..(now + 2)) \X (WinLo..(now + 2)) : f <= u}
+\* 0 is the epoch (the harness maps model time 0 to real time 0): a bound far before every retention, for from AND until
+WinDom == (WinLo..(now + 2)) \cup {0}
+Windows == {<<f, u>> \in WinDom \X WinDom : f <= u}
 
 \* fetch returns the most recent write to exactly that interval if it still
 \* occupies its slot, NaN otherwise
@@ -155,7 +157,7 @@ C01 ==
 (***************************************************************************)
 (* C04  fetch window contract: shape is a closed form of layout/window/now *)
 (***************************************************************************)
-AllWindows == (WinLo..(now + 2)) \X (WinLo..(now + 2))
+AllWindows == WinDom \X WinDom
 C04 ==
   \A a \in (-1)..(KK + 1) : \A w \in AllWindows :
     ShapeOf(Fetch(cfg, ring, now, a, w[1], w[2])) = FetchShape(cfg, now, a, w[1], w[2])
